@@ -1,10 +1,16 @@
-"""C11 — configuration of the check (deductive tier under construction)."""
+"""C11 — Plate-carree samplers return the source pixel containing each sky point."""
 PROPERTY = "C11"
-LEVEL = "exploration"
-CONTRACT_MODULES = ["contracts.specfuns"]
-FUNCTIONS = []
+LEVEL = "other"
+CONTRACT_MODULES = ["contracts.specfuns", "contracts.samplers"]
+FUNCTIONS = ["toasty.samplers.plate_carree_sampler", "toasty.samplers.plate_carree_galactic_sampler",
+             "toasty.samplers.plate_carree_ecliptic_sampler", "toasty.samplers.plate_carree_planet_sampler",
+             "toasty.samplers.plate_carree_planet_zeroleft_sampler", "toasty.samplers.plate_carree_zeroright_sampler"]
 LEMMAS = []
 SLOW = ()
-TRUSTED_BASE = []
-ASSUMPTIONS = []
-EXPLANATION = "bounded run-time tier only so far"
+TRUSTED_BASE = ["pyvc VC generator; z3 (mixed integer/real arithmetic)/cvc5",
+                "machine floats treated as mathematical reals; np.pi is the exact rational of the IEEE double",
+                "np.round half-to-even, np.clip, elementwise ufuncs; astropy rotations external with results in the documented ranges"]
+ASSUMPTIONS = ["the proof is pointwise (one (lon, lat) pair): numpy applies the same arithmetic to every array element",
+               "boundary points: over the reals the closed cell is proved; in floats a boundary point may resolve to the adjacent cell (bounded tier applies the tolerance)",
+               "the ecliptic layout (0 at the right edge after rotation) is taken from its code path and reference test"]
+EXPLANATION = "cell containment, index safety and 2pi-periodicity proved for all map shapes and all real longitudes, for all six variants"
